@@ -142,7 +142,7 @@ pub fn meta(args: &Args) -> Value {
             "sample rate 48000, `now` starts at 0"
         ],
         "floor": {"quick": 60, "thorough": 2000},
-        "case_timeout_s": 120,
+        "case_timeout_s": 40,
         "hang_is_violation": false,
         "budget": {"quick": args.cases(2400, 60000)},
     })
